@@ -121,22 +121,30 @@ def finalsOf? (fs : List Term) : Option (List (Addr × Nat)) :=
     | .list [a, c] => do pure ((← asNat? a), (← asNat? c))
     | _ => none)
 
-/-- `(trace step... )`, followed by `(feed (addr count)...)` when the requests were fed to the service -/
-def traceT (l : List StepObs) (feed : Option (List (Addr × Nat))) : Term :=
-  tag "trace" (l.map stepObsT ++ (match feed with | some fs => [tag "feed" (finalsT fs)] | none => []))
+/-- `(trace step... (order ok|underflow))`, followed by `(feed (addr count)...)` when the requests
+    were fed to the service.  `order`: replaying the run's register/unregister requests in the order
+    sent, no unregister met an address without outstanding registration. -/
+def traceT (l : List StepObs) (order : Bool) (feed : Option (List (Addr × Nat))) : Term :=
+  tag "trace" (l.map stepObsT ++ [tag "order" [sym (if order then "ok" else "underflow")]] ++
+    (match feed with | some fs => [tag "feed" (finalsT fs)] | none => []))
 
-def splitFeed : List Term → List Term × Option (List Term)
-  | [] => ([], none)
-  | [.list (.atom "feed" :: fs)] => ([], some fs)
-  | t :: ts => let r := splitFeed ts; (t :: r.1, r.2)
+def splitTail : List Term → List Term × List Term
+  | [] => ([], [])
+  | t :: ts =>
+    match t with
+    | .list (.atom "order" :: _) => ([], t :: ts)
+    | _ => let r := splitTail ts; (t :: r.1, r.2)
 
-def traceOf? : Term → Option (List StepObs × Option (List (Addr × Nat)))
+def traceOf? : Term → Option (List StepObs × Bool × Option (List (Addr × Nat)))
   | .list (.atom "trace" :: ss) => do
-      let r := splitFeed ss
+      let r := splitTail ss
       let steps ← r.1.mapM stepObsOf?
       match r.2 with
-      | none => pure (steps, none)
-      | some fs => pure (steps, some (← finalsOf? fs))
+      | [.list [.atom "order", .atom "ok"]] => pure (steps, true, none)
+      | [.list [.atom "order", .atom "underflow"]] => pure (steps, false, none)
+      | [.list [.atom "order", .atom "ok"], .list (.atom "feed" :: fs)] => pure (steps, true, some (← finalsOf? fs))
+      | [.list [.atom "order", .atom "underflow"], .list (.atom "feed" :: fs)] => pure (steps, false, some (← finalsOf? fs))
+      | _ => none
   | _ => none
 
 def svcTraceOf? : Term → Option (List Bool × List (Addr × Nat))
@@ -182,13 +190,24 @@ def lex3 (a b : Nat × Nat × Nat) : Bool :=
 def fibLe (a b : FibReq) : Bool := lex3 (a.table, a.pfx.fam, a.pfx.id) (b.table, b.pfx.fam, b.pfx.id)
 def destLe (a b : DestObs) : Bool := lex3 (a.pfx.fam, a.pfx.id, 0) (b.pfx.fam, b.pfx.id, 0)
 def natLe (a b : Nat) : Bool := a ≤ b
-def nhtLe (a b : Bool × Addr) : Bool := a.2 ≤ b.2
+def regsOf : List (Bool × Addr) → List Addr
+  | [] => []
+  | (true, a) :: rs => a :: regsOf rs
+  | (false, _) :: rs => regsOf rs
+def unregsOf : List (Bool × Addr) → List Addr
+  | [] => []
+  | (false, a) :: rs => a :: unregsOf rs
+  | (true, _) :: rs => unregsOf rs
 
-/-- stable by address: the relative order of the requests for one address is the order sent -/
-def canonNht (l : List (Bool × Addr)) : List (Bool × Addr) := sortBy nhtLe l
+/-- registers (sorted by address) before unregisters (sorted by address): the order in which
+    requests of different destinations reach the channel depends on hash-map iteration, so no
+    order between them is kept; whether an unregister ever arrived, in the order sent, for an
+    address without outstanding registration is observed separately (`order`). -/
+def canonNht (l : List (Bool × Addr)) : List (Bool × Addr) :=
+  (sortBy natLe (regsOf l)).map (fun a => (true, a)) ++ (sortBy natLe (unregsOf l)).map (fun a => (false, a))
 
 /-- Canonical form (what the harness prints): FIB requests stably sorted by (table, prefix), NHT
-    requests stably sorted by address, destinations by prefix. -/
+    requests as registers then unregisters, each sorted by address, destinations by prefix. -/
 def canonStep (s : StepObs) : StepObs :=
   ⟨sortBy fibLe s.fib, canonNht s.nht, sortBy destLe s.rib⟩
 
@@ -201,6 +220,9 @@ def svcT (es : List Bool) (w : Watched) (reqs : List (Option (Bool × Addr))) : 
 
 /-- all tracking requests of a run, in the order the model issues them -/
 def nhtOfRun (r : List (List Req × List Dest)) : List (Bool × Addr) := r.flatMap (fun s => nhtReqs s.1)
+
+/-- the tracking requests of the run replay, in the order issued, without underflow -/
+def orderOfRun (r : List (List Req × List Dest)) : Bool := (refReplay [] (nhtOfRun r)).isSome
 
 /-- what the service loop ends with when fed the tracking requests of the run -/
 def feedOfRun (r : List (List Req × List Dest)) : List (Addr × Nat) :=
